@@ -31,7 +31,7 @@ func init() {
 		Assumptions: append([]string{"at most one cache worker runs a resource queue at a time (FIFO/CHAN rules) and one output worker per connection (CTX/conn)"}, baseAssumptions...),
 		Rules: []Rule{
 			{Name: "DOM/proper-values", Min: 5, Run: ruleProperValues, Doc: "improper values never enter the cached state"},
-			{Name: "DOM/gc-unsend", Min: 2, Run: ruleGCUnsend, Doc: "the collector un-sends a kept node exactly when the root was sent and no sent reference to the node remains"},
+			{Name: "DOM/gc-unsend", Min: 1, Run: ruleGCUnsend, Doc: "the collector un-sends a kept node exactly when the root was sent and no sent reference to the node remains"},
 			{Name: "TABLE/legacy-select", Min: 8, Run: ruleLegacySelect, Doc: "clients below protocol 1.2.1 get the legacy encoding, 1.2.1 and later the current one — everywhere the version is consulted; 1.2.0 marshalers convert exactly for soft references and data values"},
 			{Name: "DOM/event-target", Min: 1, Run: ruleEventTarget, Doc: "a resource event is applied to the resource it names"},
 			{Name: "DOM/diff-unconditional", Min: 1, Run: ruleDiffUnconditional, Doc: "every cached key missing from a re-fetched model is marked deleted"},
@@ -72,8 +72,8 @@ func init() {
 		Assumptions: baseAssumptions,
 		Rules: []Rule{
 			{Name: "DOM/lazy-init", Min: 1, Run: ruleLazyInit, Doc: "the list of references a change event introduces is created once and only grows: every new reference is waited for and delivered with the event"},
-			{Name: "PAIR/edge-sent-counted", Min: 2, Run: ruleEdgeSentCounted, Doc: "a new reference to an already sent resource is counted as sent before the event goes out"},
-			{Name: "DOM/gc-unsend", Min: 2, Run: ruleGCUnsend, Doc: "the collector un-sends a kept node exactly when the root was sent and no sent reference to the node remains; the mark phase starts only for a root that goes or is un-sent"},
+			{Name: "PAIR/edge-sent-counted", Min: 1, Run: ruleEdgeSentCounted, Doc: "a new reference to an already sent resource is counted as sent before the event goes out"},
+			{Name: "DOM/gc-unsend", Min: 1, Run: ruleGCUnsend, Doc: "the collector un-sends a kept node exactly when the root was sent and no sent reference to the node remains; the mark phase starts only for a root that goes or is un-sent"},
 			{Name: "TWIN/agree", Min: 0, Run: ruleTwinAgree, Doc: "populateResources and its legacy twin take the same decisions and have the same effects on every path, apart from the encoding they place"},
 			{Name: "DOM/queue-flag-whole", Min: 5, Run: ruleQueueFlagWhole, Doc: "every decision on the hold-back reasons of a subscription (queueFlag) compares the whole set with zero"},
 			{Name: "DOM/unsend-countdown", Min: 2, Run: ruleUnsendCountdown, Doc: "un-sending counts each child's sent references down whenever the child is sent and counted, whatever else holds it"},
@@ -117,9 +117,9 @@ func init() {
 		Assumptions: baseAssumptions,
 		Rules: []Rule{
 			{Name: "PAIR/one-event-out", Min: 2, Run: ruleOneEventOut, Doc: "a resource event is passed on to the client at most once on every path of the subscription's event handlers"},
-			{Name: "PAIR/queue-reason", Min: 2, Run: ruleQueueReason, Doc: "a continuation that lifts a hold-back reason was created behind the queueEvents that set it: later events do not overtake the event being prepared"},
-			{Name: "DOM/resetting-gate", Min: 5, Run: ruleResettingGate, Doc: "state events are not applied while a re-fetch is outstanding"},
-			{Name: "PAIR/requested-once", Min: 2, Run: ruleRequestedOnce, Doc: "the get request of a cache entry goes out only after the entry is marked requested: one request per load, one initialisation"},
+			{Name: "PAIR/queue-reason", Min: 1, Run: ruleQueueReason, Doc: "a continuation that lifts a hold-back reason was created behind the queueEvents that set it: later events do not overtake the event being prepared"},
+			{Name: "DOM/resetting-gate", Min: 3, Run: ruleResettingGate, Doc: "state events are not applied while a re-fetch is outstanding"},
+			{Name: "PAIR/requested-once", Min: 1, Run: ruleRequestedOnce, Doc: "the get request of a cache entry goes out only after the entry is marked requested: one request per load, one initialisation"},
 			{Name: "DOM/lock-gate", Min: 1, Run: ruleLockGate, Doc: "tasks queued behind a query event run only after all its answers"},
 			{Name: "DOM/queue-flag-whole", Min: 5, Run: ruleQueueFlagWhole, Doc: "the drain of held-back events stops early only while a hold-back reason is set, so queued events are delivered, in order, once the gate opens"},
 			{Name: "DOM/event-target", Min: 1, Run: ruleEventTarget, Doc: "a resource event is applied to the resource it names"},
@@ -174,7 +174,7 @@ func init() {
 		Explanation: "Decides: both sites of Cache.Call lie behind a call grant on the same continuation path, for the very action value that was checked, and not behind a direct-response status (DOM/gates); CanCall grants only through call == \"*\" or an exact list entry, error first, never for an empty list (TABLE/access); at all 8 request sites the token argument is the connection's token read in the requesting task and the requester is that same connection; the payload builders use the requester's CID() and the given token (PROV/token-cid); token/tid are written only by setToken and every token change re-checks every subscription of the connection, unconditionally (DOM/token-fanout); the cached verdict is cleared on every trigger and before loadAccess can short-circuit on it (DOM/invalidate); the token is read on the connection worker only (CTX/conn: known finding F11 — the throttled re-access reads it on a fresh goroutine); a reaccess event always reaches the subscribers of the resource, also while it is being reset (CONF/handle-event). Not decided: the CanCall list scanner for all strings; validity of an access answer in flight at trigger time. Added after seeding round 7: a token event stores the new token before the subscriptions are re-accessed (DOM/token-fanout). Added after seeding round 8: an invalid pattern in a reset's list is skipped and does not end the scan (DOM/valid-patterns). Added after seeding round 9: every re-access trigger is carried out or recorded — none is dropped because a re-check is already pending (DOM/invalidate). Added after seeding round 10: an access answer carrying an error is an error, whatever else it carries (DOM/error-wins). Added after seeding round 12: every path of ResourcePattern.Match that returns the comparison of the name with the pattern text has established that the pattern has no wildcard (TABLE/match-literal; one shape condition of the matcher, not its correctness). Added after seeding round 13: the method of a call/auth request reaches the entry points only behind IsValidRIDPart of that very value, on both transports (DOM/method-token).",
 		Assumptions: baseAssumptions,
 		Rules: []Rule{
-			{Name: "DOM/method-token", Min: 3, Run: ruleMethodToken, Doc: "the method name of a call/auth request is validated as one subject token (IsValidRIDPart) on every path to the connection's call/auth entry points"},
+			{Name: "DOM/method-token", Min: 1, Run: ruleMethodToken, Doc: "the method name of a call/auth request is validated as one subject token (IsValidRIDPart) on every path to the connection's call/auth entry points"},
 			{Name: "TABLE/match-literal", Min: 1, Run: ruleMatchLiteral, Doc: "a system reset with a wildcard access pattern reaches every matching resource: a wildcard pattern is never matched by comparing texts"},
 			{Name: "DOM/error-wins", Min: 3, Run: ruleErrorWins, Doc: "a service answer carrying an error member is decoded as that error, whatever else it carries (an access error never grants)"},
 			{Name: "DOM/valid-patterns", Min: 1, Run: ruleValidPatterns, Doc: "a system reset re-validates the cached access of every resource matching a valid pattern of its list: an invalid pattern is skipped, it does not end the scan"},
@@ -249,8 +249,8 @@ func init() {
 		Assumptions: append([]string{"LIN (C07): every handler replies exactly once", "a task refused by a disposing connection needs no release (dispose releases everything)"}, baseAssumptions...),
 		Rules: []Rule{
 			{Name: "DOM/rpc-dispatch", Min: 10, Run: ruleRPCDispatch, Doc: "an unsubscribe that succeeded is answered with success, one that was refused with the error"},
-			{Name: "PAIR/edge-sent-counted", Min: 2, Run: ruleEdgeSentCounted, Doc: "the quick exits of the add/change handlers count a new reference to an already sent resource in its indirectsent before the event goes out"},
-			{Name: "DOM/remove-count-held", Min: 3, Run: ruleRemoveCountHeld, Doc: "removeCount lowers a count only while the subscription has a holder (direct+indirect+indirectsent != 0)"},
+			{Name: "PAIR/edge-sent-counted", Min: 1, Run: ruleEdgeSentCounted, Doc: "the quick exits of the add/change handlers count a new reference to an already sent resource in its indirectsent before the event goes out"},
+			{Name: "DOM/remove-count-held", Min: 1, Run: ruleRemoveCountHeld, Doc: "removeCount lowers a count only while the subscription has a holder (direct+indirect+indirectsent != 0)"},
 			{Name: "DOM/gc-after-release", Min: 1, Run: ruleGCAfterRelease, Doc: "a released reference reaches the collector on every path: nothing is left behind on a reference cycle"},
 			{Name: "DOM/count-integer", Min: 2, Run: ruleCountInteger, Doc: "the unsubscribe count is an integer as decoded: a fractional count is refused, not truncated"},
 			{Name: "DOM/gc-mark", Min: 1, Run: ruleGCMark, Doc: "the collector marks a held node, or one reached from a kept node, kept — also over an earlier deletion mark: a subscription shared with a kept parent is not disposed"},
@@ -272,7 +272,7 @@ func init() {
 		Assumptions: baseAssumptions,
 		Rules: []Rule{
 			{Name: "DOM/unregister-empty", Min: 1, Run: ruleUnregisterEmpty, Doc: "an unsubscribe unregisters a query variant only when its last subscriber is gone"},
-			{Name: "PAIR/requested-once", Min: 2, Run: ruleRequestedOnce, Doc: "one get request per load of a cache entry"},
+			{Name: "PAIR/requested-once", Min: 1, Run: ruleRequestedOnce, Doc: "one get request per load of a cache entry"},
 			{Name: "PAIR/query-lock", Min: 1, Run: ruleQueryLock, Doc: "every lock a query event places on the entry's event queue is released: the entry's queued releases and evictions are not stranded behind it"},
 			{Name: "DOM/unsend-countdown", Min: 2, Run: ruleUnsendCountdown, Doc: "un-sending counts each child's sent references down whenever the child is sent and counted"},
 			{Name: "PAIR/release-on-teardown", Min: 4, Run: ruleReleaseOnTeardown, Doc: "an evicted cache entry's event subscription is released"},
@@ -318,7 +318,7 @@ func init() {
 		Explanation: "Decides: wsConn.dispose sets the flag and closes the worker channel in one critical section, removes the connection from the cache and from token-reset fan-out, unsubscribes the connection events, disposes every subscription, and leaves the registry (DOM/dispose); Subscription.Dispose releases references and exactly one cache use; Enqueue/Subscribe/Unsubscribe refuse a disposing connection; a late Loaded releases the cache use (PAIR/loaded-handover); late access answers are absorbed (DOM/verdict-store); no call/auth request is issued by a continuation of a disposed connection (CTX/post-dispose); a refused task never strands a throttle slot of other connections (PAIR/throttle-slot); temporary HTTP connections are disposed exactly once on every exit (LIN/temp-conn); sends on the worker channel cannot hit the close (CHAN); teardown takes the connection and cache mutexes in an order that cannot deadlock against the token-reset fan-out (LOCK/order). Not decided: 'no effect on other connections' as a runtime fact beyond the pairing rules of C09. Added after seeding round 7: every service request reads the connection's token and is therefore confined to the connection's worker (CTX/conn), whose queue refuses tasks after the close; a named function that sends a call/auth request hands the dispose test to each closure calling it (CTX/post-dispose). Added after seeding round 8: no function run with the event subscription's mutex held (the tasks of its worker) calls something that takes that mutex again (LOCK/order with held-on-entry states). Added after seeding round 9: a re-access trigger on a disposed subscription starts no access request (DOM/invalidate). Added after seeding round 11: the disposing test that keeps a continuation from sending a call/auth request lies in the continuation itself — a test in front of the creation of the continuation says nothing about the time it runs (CTX/post-dispose). Added after seeding round 12: PAIR/membership serves this property too. Added after the mutation sweep: unsubscribeConn releases the connection's messaging-system subscription whenever there is one, RemoveConn takes the connection out of the token-reset registry, the cache's eviction releases the entry's event subscription (PAIR/release-on-teardown). Added after seeding round 13: DOM/ref-shapes also serves this property — ReleaseRPCResources returns at once for a disposed subscription, so a frame released after the disconnect neither re-opens the event gate nor processes queued events. Added after the mutation sweep: every use of the loaded resource in Subscription.Loaded lies behind err == nil (DOM/loaded-either).",
 		Assumptions: baseAssumptions,
 		Rules: []Rule{
-			{Name: "DOM/loaded-either", Min: 2, Run: ruleLoadedEither, Doc: "Subscription.Loaded touches the resource only behind err == nil, also on the path where the closing connection refused the task"},
+			{Name: "DOM/loaded-either", Min: 1, Run: ruleLoadedEither, Doc: "Subscription.Loaded touches the resource only behind err == nil, also on the path where the closing connection refused the task"},
 			{Name: "DOM/ref-shapes", Min: 1, Run: ruleRefShapes, Doc: "a release that arrives for a disposed subscription returns before it touches state or event queue"},
 			{Name: "PAIR/release-on-teardown", Min: 4, Run: ruleReleaseOnTeardown, Doc: "a closed connection's messaging-system subscription is released and the connection leaves the token-reset registry"},
 			{Name: "DOM/ready-continuation-live", Min: 2, Run: ruleReadyContinuationLive, Doc: "nothing is sent, and no reference counted as sent, for a subscription disposed while an event waited for its references"},
@@ -345,8 +345,8 @@ func init() {
 		Explanation: "Decides the plumbing and protocol clauses only: a matching entry is re-fetched once, with get.<name> and its normalised query, unless a reset is already outstanding; the resetting flag is set before the request and cleared before the answer is processed, in both the throttled and the unthrottled twin; the base resource (unless it is a link) and every cached query variant are visited exactly once, for resources and for access (DOM/reset-protocol); derived events go through handleEvent, state events are dropped only while resetting (CONF/handle-event); invalid patterns match nothing at the recogniser level (TABLE/reject-set); only valid patterns are matched (DOM/valid-patterns); content is replaced copy-on-write (DOM/copy-on-write). NOT decided — the heart of the property: wildcard matching semantics for all names, that the model diff and the LCS edit script transform old into new with indexes in range, that unchanged content yields no event. Added after seeding round 8: TABLE/lcs-exhaustive (see C03) for the derived add/remove sequence of a re-fetched collection. Added after seeding round 11: the kind of an answer is decided by which member is present, never by its size, so a reset that empties a resource produces its remove / delete-action events (TABLE/kind-by-presence); a run of adds emitted by one ascending loop moves its index along (TABLE/add-run).  Added after seeding round 12: every path of ResourcePattern.Match that returns the comparison of the name with the pattern text has established that the pattern has no wildcard (TABLE/match-literal; one shape condition of the matcher, not its correctness). Added after seeding round 12: the marking of missing keys runs for every re-fetched model (DOM/diff-unconditional). Added after seeding round 13: DOM/invalidate (see C05/C06) also serves this property — a reset access pattern re-requests access with the cached verdict cleared. Added after the mutation sweep: handleResetAccess agrees with handleResetResource on every abstract path (TWIN/agree). Added after the mutation sweep: the model diff drops equal properties and only those; an empty diff builds no event (DOM/diff-drops-equal; Value.Equal itself is not decided). Added after the mutation sweep: the appliers of state events and the start of a re-fetch lie behind resetting == false (DOM/resetting-gate).",
 		Assumptions: baseAssumptions,
 		Rules: []Rule{
-			{Name: "DOM/resetting-gate", Min: 5, Run: ruleResettingGate, Doc: "while a re-fetch is outstanding no state event is applied to the cached copy and no second re-fetch is started"},
-			{Name: "DOM/diff-drops-equal", Min: 3, Run: ruleDiffDropsEqual, Doc: "the model diff of a re-fetch drops a property exactly behind the lookup's ok and Value.Equal, and builds no event for an empty diff"},
+			{Name: "DOM/resetting-gate", Min: 3, Run: ruleResettingGate, Doc: "while a re-fetch is outstanding no state event is applied to the cached copy and no second re-fetch is started"},
+			{Name: "DOM/diff-drops-equal", Min: 2, Run: ruleDiffDropsEqual, Doc: "the model diff of a re-fetch drops a property exactly behind the lookup's ok and Value.Equal, and builds no event for an empty diff"},
 			{Name: "TWIN/agree", Min: 0, Run: ruleTwinAgree, Doc: "the resource and the access variant of a reset visit the same subscriptions of an entry: base unless it is a link, every query variant once"},
 			{Name: "DOM/invalidate", Min: 1, Run: ruleInvalidate, Doc: "the access re-check a reset asks for clears the cached verdict before it asks again"},
 			{Name: "DOM/diff-unconditional", Min: 1, Run: ruleDiffUnconditional, Doc: "every cached key missing from a re-fetched model is marked deleted, whatever the sizes of the two models"},
@@ -416,7 +416,7 @@ func init() {
 			{Name: "DOM/map-arg-made", Min: 1, Run: ruleMapArgMade, Doc: "a member map handed to a function that assigns into it is non-nil (or made) on that path"},
 			{Name: "DOM/exclusive-members", Min: 4, Run: ruleExclusiveMembers, Doc: "an answer with two alternative content members is refused; only the known action name makes a delete action"},
 			{Name: "DOM/proper-values", Min: 5, Run: ruleProperValues, Doc: "each decoder of service content tests every value of each content member with IsProper before it accepts the message"},
-			{Name: "DOM/loaded-either", Min: 2, Run: ruleLoadedEither, Doc: "no nil dereference of the resource of a failed load"},
+			{Name: "DOM/loaded-either", Min: 1, Run: ruleLoadedEither, Doc: "no nil dereference of the resource of a failed load"},
 			{Name: "DOM/loop-index", Min: 0, Run: ruleLoopIndex, Doc: "an element read at the position of a counting loop variable lies behind a test of that variable"},
 			{Name: "DOM/optional-hook", Min: 3, Run: ruleOptionalHook, Doc: "a hook that may be unset is called only under its non-nil test"},
 			{Name: "REC/gc-terminates", Min: 3, Run: ruleGCTerminates, Doc: "the collector's walks over the reference graph end on every graph, cycles included (no stack overflow on the connection worker)"},
@@ -453,9 +453,9 @@ func init() {
 		Assumptions: baseAssumptions,
 		Rules: []Rule{
 			{Name: "TABLE/status-classes", Min: 4, Run: ruleStatusClasses, Doc: "every ordered comparison of a meta status with a constant flips exactly at a class border (300, 400, 500, 600)"},
-			{Name: "PAIR/respond-once", Min: 5, Run: ruleRespondOnce, Doc: "an HTTP exchange is answered at most once"},
-			{Name: "DOM/raw-path", Min: 3, Run: ruleRawPath, Doc: "the request path split into resource-id parts is the escaped one (URL.RawPath / EscapedPath)"},
-			{Name: "DOM/method-token", Min: 3, Run: ruleMethodToken, Doc: "the method name taken from an HTTP path is validated as one subject token before the call"},
+			{Name: "PAIR/respond-once", Min: 3, Run: ruleRespondOnce, Doc: "an HTTP exchange is answered at most once"},
+			{Name: "DOM/raw-path", Min: 1, Run: ruleRawPath, Doc: "the request path split into resource-id parts is the escaped one (URL.RawPath / EscapedPath)"},
+			{Name: "DOM/method-token", Min: 1, Run: ruleMethodToken, Doc: "the method name taken from an HTTP path is validated as one subject token before the call"},
 			{Name: "TABLE/dots-after-prefix", Min: 2, Run: ruleDotsAfterPrefix, Doc: "the dot test of the HTTP path readers looks at the part behind the api prefix, so every configured prefix works"},
 			{Name: "DOM/onready-inline", Min: 1, Run: ruleOnReadyInline, Doc: "OnReady runs its callback at once only for a ready subscription (everything below it loaded)"},
 			{Name: "TABLE/href-dots", Min: 1, Run: ruleHrefDots, Doc: "the path reader refuses dots, so the href writer leaves none: every id-derived piece passes the . to / replacement"},
@@ -476,8 +476,8 @@ func init() {
 		Assumptions: baseAssumptions,
 		Rules: []Rule{
 			{Name: "TABLE/status-classes", Min: 4, Run: ruleStatusClasses, Doc: "a meta status is sorted into its class at the class borders"},
-			{Name: "DOM/direct-status-first", Min: 2, Run: ruleDirectStatusFirst, Doc: "in the continuations of HTTP access requests CanGet/CanCall are evaluated only behind IsDirectResponseStatus() == false"},
-			{Name: "PAIR/respond-once", Min: 5, Run: ruleRespondOnce, Doc: "every path of every function holding the ResponseWriter produces at most one response (helper, upgrade, or own status/body)"},
+			{Name: "DOM/direct-status-first", Min: 1, Run: ruleDirectStatusFirst, Doc: "in the continuations of HTTP access requests CanGet/CanCall are evaluated only behind IsDirectResponseStatus() == false"},
+			{Name: "PAIR/respond-once", Min: 3, Run: ruleRespondOnce, Doc: "every path of every function holding the ResponseWriter produces at most one response (helper, upgrade, or own status/body)"},
 			{Name: "DOM/null-origin-raw", Min: 2, Run: ruleNullOriginRaw, Doc: "the null origin that bypasses the allow-list is recognised on the header value as received, not after case folding"},
 			{Name: "DOM/auth-meta-kept", Min: 1, Run: ruleAuthMetaKept, Doc: "the header-auth answer's meta (headers, cookies) is kept whenever the request goes on"},
 			{Name: "DOM/meta-merge", Min: 1, Run: ruleMetaMerge, Doc: "merging two service metas hands the later status over on every path"},
@@ -497,7 +497,7 @@ func init() {
 		Explanation: "Decides for nats/nats.go: every path of SendRequest consumes the completion exactly once (three immediate-error goroutines or the pending entry) (LIN/sendrequest); every invocation of a request completion is preceded by the removal of its pending entry in the critical section of the lookup, a pre-response removes and completes nothing, event callbacks are invoked synchronously in publish order (PATHS/remove-before-invoke); the subject length is checked against the control-line limit before ChanSubscribe/PublishRequest; NoReconnect and the closed handler are installed, one listener goroutine; no deferred closure captures the listener's loop variable (DOM/loopvar); the only method called on a nats.go subscription is Unsubscribe — no delivery limit that a pre-response could use up (DOM/nats-plumbing). Not decided: timing of timeouts and their restart, disconnect detection by nats.go. Added after seeding round 7: whoever removes a found pending request from the map completes it on every path (PATHS/remove-before-invoke). Added after seeding round 9: the closed handler is registered with the connection unconditionally (DOM/nats-plumbing). Added after seeding round 10: completions are invoked with the adapter's mutex released (PATHS/remove-before-invoke). Added after seeding round 11: the length test that refuses a request with system.subjectTooLong measures the subject and the very inbox string that is sent (DOM/control-line-parts). Added after seeding round 12: the listener takes a message for a pre-response exactly when its first byte is an ASCII letter, decided for all 256 values by constant propagation (TABLE/meta-first-byte). Added after the mutation sweep (the repository's suite never executes nats/nats.go): per message at most one callback, the no-responders completion exactly for an empty 503 message on a request inbox, only request inboxes are forgotten (CONF/nats-listener); failures are reported with an error that is set and success never comes empty-handed (DOM/result-or-error); a valid timeout pre-response stops the running timeout once and, if that succeeded, arms a timer that runs onTimeout (CONF/nats-premeta); Connect/close/Close/onError set up and tear down the adapter's state completely (CONF/nats-lifecycle); looked-up pending entries, first bytes and optional timers are touched only under their guards (DOM/lookup-ok, DOM/const-index, DOM/optional-field); every function leaves the adapter's mutex as it found it and touches the pending map only under it (LOCK/balance, LOCK/guarded-fields). DOM/loop-index: see C15. Added after seeding round 13: only Close and the slow-consumer branch of the error handler reach the shutdown that discards the pending requests (WHO/nats-discard).",
 		Assumptions: append([]string{"nats.go delivers at most what was published; timerqueue fires each entry at most once"}, baseAssumptions...),
 		Rules: []Rule{
-			{Name: "WHO/nats-discard", Min: 3, Run: ruleNatsDiscard, Doc: "the pending map and the timeout queue of the NATS adapter are discarded only through the owner's Close and the slow-consumer shutdown, never by a connection event"},
+			{Name: "WHO/nats-discard", Min: 2, Run: ruleNatsDiscard, Doc: "the pending map and the timeout queue of the NATS adapter are discarded only through the owner's Close and the slow-consumer shutdown, never by a connection event"},
 			{Name: "DOM/loop-index", Min: 0, Run: ruleLoopIndex, Doc: "an element read at the position of a counting loop variable lies behind a test of that variable"},
 			{Name: "LOCK/guarded-fields", Min: 40, Run: ruleGuardedFields, Doc: "the pending map, the connection and the timeout queue are touched under the adapter's mutex"},
 			{Name: "LOCK/balance", Min: 20, Run: ruleLockBalance, Doc: "every function of the adapter leaves its mutex as it found it"},
